@@ -97,6 +97,9 @@ type Enc struct {
 	fnIds    map[string]Term
 	globals  map[string]Term
 	bv       bool
+	nbase    int
+	carrs    map[string]string
+	lateFacts []string
 }
 
 type structInfo struct {
@@ -120,17 +123,7 @@ func newEnc(P *Program) *Enc {
 	e.decl("fn:str_concat", "(declare-fun str_concat (Str Str) Str)")
 	e.decl("fn:iface_tag", "(declare-fun iface_tag (Iface) Int)")
 	e.decl("const:iface_nil", "(declare-const iface_nil Iface)")
-	e.axioms = append(e.axioms,
-		"(assert (= (iface_tag iface_nil) 0))",
-		"(assert (forall ((i Iface)) (! (=> (= (iface_tag i) 0) (= i iface_nil)) :pattern ((iface_tag i)))))",
-		"(assert (forall ((s Str)) (! (>= (str_len s) 0) :pattern ((str_len s)))))",
-		"(assert (forall ((a Str) (b Str)) (! (= (str_len (str_concat a b)) (+ (str_len a) (str_len b))) :pattern ((str_concat a b)))))",
-		// strict total order on strings (byte-wise order, assumed)
-		"(assert (forall ((a Str)) (! (not (str_lt a a)) :pattern ((str_lt a a)))))",
-		"(assert (forall ((a Str) (b Str)) (! (or (str_lt a b) (str_lt b a) (= a b)) :pattern ((str_lt a b)))))",
-		"(assert (forall ((a Str) (b Str)) (! (not (and (str_lt a b) (str_lt b a))) :pattern ((str_lt a b)))))",
-		"(assert (forall ((a Str) (b Str) (c Str)) (! (=> (and (str_lt a b) (str_lt b c)) (str_lt a c)) :pattern ((str_lt a b) (str_lt b c)))))",
-	)
+	e.nbase = len(e.decls)
 	return e
 }
 
@@ -300,9 +293,30 @@ func (e *Enc) zero(t types.Type) Term {
 	case *types.Interface:
 		return "iface_nil"
 	case *types.Array:
-		return fmt.Sprintf("((as const %s) %s)", e.sortOf(t), e.zero(u.Elem()))
+		return e.constArray("Int", e.sortOf(u.Elem()), e.zero(u.Elem()))
 	}
 	return "0"
+}
+
+// constArray: array holding v everywhere. cvc5 accepts (as const …) only for value
+// terms, so for elements mentioning uninterpreted constants a named array with a
+// defining axiom is used instead.
+func (e *Enc) constArray(ixSort, elSort string, v Term) Term {
+	if !strings.Contains(v, "iface_nil") && !strings.Contains(v, "str!") {
+		return fmt.Sprintf("((as const (Array %s %s)) %s)", ixSort, elSort, v)
+	}
+	key := "carr:" + ixSort + ":" + elSort + ":" + v
+	name := fmt.Sprintf("carr!%d", len(e.carrs))
+	if n, ok := e.carrs[key]; ok {
+		return n
+	}
+	if e.carrs == nil {
+		e.carrs = map[string]string{}
+	}
+	e.carrs[key] = name
+	e.decls = append(e.decls, fmt.Sprintf("(declare-const %s (Array %s %s))", name, ixSort, elSort))
+	e.axioms = append(e.axioms, fmt.Sprintf("(assert (forall ((j %s)) (! (= (select %s j) %s) :pattern ((select %s j)))))", ixSort, name, v, name))
+	return name
 }
 
 func (e *Enc) strLit(s string) Term {
@@ -444,10 +458,11 @@ type State struct {
 	preds  []*State
 	guards []Term
 	fv     *FuncVC
+	blk    int // block the state belongs to (facts about its lazily created versions are attributed to it)
 }
 
 func (s *State) clone() *State {
-	return &State{kind: sCopy, h: map[string]Term{}, parent: s, fv: s.fv}
+	return &State{kind: sCopy, h: map[string]Term{}, parent: s, fv: s.fv, blk: s.blk}
 }
 
 func (s *State) set(name string, t Term) { s.h[name] = t }
@@ -467,14 +482,14 @@ func (s *State) get(name string) Term {
 	case sHavoc:
 		old := s.parent.get(name)
 		if !(s.havocAll || s.havoc[name]) {
-			t = old
-			break
+			// not cached: a later lookup (e.g. while translating the callee's post) may decide differently
+			return old
 		}
 		srt := e.heapSortOf(name)
 		t = e.constant(name+"@"+s.site, srt)
 		switch {
 		case name == "alloc" || name == "calls":
-			fv.assumeAt(s.guard, app(">=", t, old))
+			fv.assumeAtBlk(s.blk, s.guard, app(">=", t, old))
 		case strings.HasPrefix(srt, "(Array Int"):
 			conds := []Term{}
 			if s.bound != "" {
@@ -486,7 +501,7 @@ func (s *State) get(name string) Term {
 				}
 			}
 			if s.bound != "" {
-				fv.assumeAt(s.guard, fmt.Sprintf("(forall ((a Int)) (! (=> %s (= (select %s a) (select %s a))) :pattern ((select %s a))))", and(conds...), t, old, t))
+				fv.assumeAtBlk(s.blk, s.guard, fmt.Sprintf("(forall ((a Int)) (! (=> %s (= (select %s a) (select %s a))) :pattern ((select %s a))))", and(conds...), t, old, t))
 			}
 		}
 	case sJoin:
@@ -504,7 +519,7 @@ func (s *State) get(name string) Term {
 		} else {
 			t = e.fresh(name, e.heapSortOf(name))
 			for i, v := range vs {
-				fv.assumeAt(s.guards[i], eq(t, v))
+				fv.assumeAtBlk(s.blk, s.guards[i], eq(t, v))
 			}
 		}
 	}
@@ -550,30 +565,61 @@ func (e *Enc) heapSortOf(name string) string {
 	panic("unknown heap " + name)
 }
 
+// baseAxioms are included only when the symbols they constrain occur in the script.
+var baseAxioms = []struct{ sym, ax string }{
+	{"iface_", "(assert (= (iface_tag iface_nil) 0))"},
+	{"iface_", "(assert (forall ((i Iface)) (! (=> (= (iface_tag i) 0) (= i iface_nil)) :pattern ((iface_tag i)))))"},
+	{"str_len", "(assert (forall ((s Str)) (! (>= (str_len s) 0) :pattern ((str_len s)))))"},
+	{"str_concat", "(assert (forall ((a Str) (b Str)) (! (= (str_len (str_concat a b)) (+ (str_len a) (str_len b))) :pattern ((str_concat a b)))))"},
+	// strict total order on strings (byte-wise order, assumed)
+	{"str_lt", "(assert (forall ((a Str)) (! (not (str_lt a a)) :pattern ((str_lt a a)))))"},
+	{"str_lt", "(assert (forall ((a Str) (b Str)) (! (or (str_lt a b) (str_lt b a) (= a b)) :pattern ((str_lt a b)))))"},
+	{"str_lt", "(assert (forall ((a Str) (b Str)) (! (not (and (str_lt a b) (str_lt b a))) :pattern ((str_lt a b)))))"},
+	{"str_lt", "(assert (forall ((a Str) (b Str) (c Str)) (! (=> (and (str_lt a b) (str_lt b c)) (str_lt a c)) :pattern ((str_lt a b) (str_lt b c)))))"},
+}
+
 // script assembles a complete SMT-LIB script.
 func (e *Enc) script(background []string, goal string, opts []string) string {
+	var body strings.Builder
+	for _, d := range e.decls[e.nbase:] {
+		body.WriteString(d)
+		body.WriteByte('\n')
+	}
+	for _, a := range e.axioms {
+		body.WriteString(a)
+		body.WriteByte('\n')
+	}
+	for _, a := range e.lateFacts {
+		body.WriteString(a)
+		body.WriteByte('\n')
+	}
+	strAx := e.strAxioms()
+	for _, a := range strAx {
+		body.WriteString(a)
+		body.WriteByte('\n')
+	}
+	for _, a := range background {
+		body.WriteString(a)
+		body.WriteByte('\n')
+	}
+	body.WriteString(goal)
+	bs := body.String()
 	var b strings.Builder
 	for _, o := range opts {
 		b.WriteString(o)
 		b.WriteByte('\n')
 	}
-	for _, d := range e.decls {
+	for _, d := range e.decls[:e.nbase] {
 		b.WriteString(d)
 		b.WriteByte('\n')
 	}
-	for _, a := range e.axioms {
-		b.WriteString(a)
-		b.WriteByte('\n')
+	for _, ba := range baseAxioms {
+		if strings.Contains(bs, ba.sym) {
+			b.WriteString(ba.ax)
+			b.WriteByte('\n')
+		}
 	}
-	for _, a := range e.strAxioms() {
-		b.WriteString(a)
-		b.WriteByte('\n')
-	}
-	for _, a := range background {
-		b.WriteString(a)
-		b.WriteByte('\n')
-	}
-	b.WriteString(goal)
+	b.WriteString(bs)
 	b.WriteString("\n(check-sat)\n")
 	return b.String()
 }
